@@ -388,7 +388,8 @@ Fixpoint chunks {A} (fuel : nat) (l : list A) (k : nat) : list (list A) :=
   | S f => match l with [] => [] | _ => firstn k l :: chunks f (skipn k l) k end
   end.
 
-(* ws = the items' measured maxima (Measurement.get(item, max_width).maximum); result: the column
+(* rich 9.10.0 as found (Columns(width=w) wider than the console divides by zero, D10 / C14);
+   ws = the items' measured maxima (Measurement.get(item, max_width).maximum); result: the column
    count and the table rows as item indices (-1 = blank cell) *)
 Definition columns_grid (ws : list Z) (cwidth : option Z) (pl pr : Z) (equal cf rtl : bool) (W : Z)
   : res (Z * list (list Z)) :=
@@ -400,6 +401,24 @@ Definition columns_grid (ws : list Z) (cwidth : option Z) (pl pr : Z) (equal cf 
     do cc <-
       match cwidth with
       | Some cwid => if cwid + wpad =? 0 then Crash K_ZeroDivisionError else Ok (W / (cwid + wpad))
+      | None => width_loop (S (Z.to_nat n)) n ws n wpad W cf
+      end;
+    do items <- iter_items n cc cf;
+    Ok (cc, map (fun row => if rtl then rev row else row) (chunks (S (length items)) items (Z.to_nat cc))).
+
+(* the repaired code (/repo fix ef09520: column_count = max(1, ...) with an explicit width);
+   ws = the items' measured maxima (Measurement.get(item, max_width).maximum); result: the column
+   count and the table rows as item indices (-1 = blank cell) *)
+Definition columns_grid_fixed (ws : list Z) (cwidth : option Z) (pl pr : Z) (equal cf rtl : bool) (W : Z)
+  : res (Z * list (list Z)) :=
+  let n := zlen ws in
+  if n =? 0 then Ok (0, [])
+  else
+    let wpad := Z.max pl pr in
+    let ws := if equal then map (fun _ => fold_right Z.max 0 ws) ws else ws in
+    do cc <-
+      match cwidth with
+      | Some cwid => if cwid + wpad =? 0 then Crash K_ZeroDivisionError else Ok (Z.max 1 (W / (cwid + wpad)))
       | None => width_loop (S (Z.to_nat n)) n ws n wpad W cf
       end;
     do items <- iter_items n cc cf;
